@@ -67,6 +67,17 @@ CHECKS = {
         note="openbabel cells cannot run (skipped, counted); cdxml compared on constitution only; loads_all for ensembles has no class-level counterpart.",
         technique="exhaustive configuration-matrix enumeration + differential testing against class-level codecs",
     ),
+    "C10": dict(
+        category="fault_enumeration",
+        text="Every truncation point (all line boundaries + every byte of the last record) of 10 bundled files and of generated multi-molecule files whose molecules "
+             "differ in atom and bond counts; random line deletions / duplications and token faults that make a token invalid for its field; plus atheris/libFuzzer "
+             "campaigns that decode fuzz bytes into (file, fault sequence incl. arbitrary byte cuts). Oracle: the reader raises, or every returned molecule has the counts of "
+             "its own header in the damaged text and the content of the molecule at that position in the undamaged file; a 60 s alarm decides termination.",
+        design_ref="DESIGN.md section 5, C10",
+        note="Undetectable damage (swapped lines, digit -> digit, free-text fields, optional trailing fields) is outside the fault model; the format-inherent class 'cut inside the "
+             "final numeric token leaving a valid number' is a recorded known finding, excluded by construction and counted.",
+        technique="exhaustive fault (truncation) enumeration + random fault injection + coverage-guided structured fuzzing (atheris) with a differential/self-consistency oracle",
+    ),
     "C02": dict(
         category="exploration",
         text="Bounded-exhaustive (all op sequences up to length 4/5 over a 14-letter alphabet on two raw UKVFile handles) plus random "
